@@ -114,8 +114,9 @@ def doc_run(doc: Doc, op, dn, ds) -> str:
 def judge(ctx, impl: str, doc: str, data: bytes, hist) -> str | None:
     """C05's statement for one step: equal to the documented model; position inside the data;
     remaining non-negative; only the two documented errors."""
-    if impl != doc:
-        return f"data {data.hex() or '-'} history {hist!r}: reader gives `{impl}`, documented model gives `{doc}`"
+    if not rwlib.same(impl, doc):
+        return f"data {data.hex() or '-'} history {hist!r}: reader gives `{impl}`, documented model gives `{doc}`" + \
+            (" (no `remaining` queries between the operations)" if " rem * " in impl else "")
     return None
 
 
@@ -148,7 +149,7 @@ def run(ctx: Ctx):
             return True
         ans = d.ask(lines)
         for a, b, m in zip(expect, ans, meta):
-            if a is not None and a != b:
+            if a is not None and not rwlib.same(a, b):
                 ctx.violation("model-impl-disagree", f"data {m[0].hex() or '-'} history {m[1]!r}: impl `{a}`, model `{b}`; the reader "
                               "agrees with the documented model on this history", {"input": {"data": m[0].hex(), "history": jsh(m[1])},
                               "impl": a, "model": b, "correspondence": "Reader.step vs EoReader",
@@ -162,6 +163,7 @@ def run(ctx: Ctx):
     depth = 4 if ctx.tier == "thorough" else 3
     next_id = [1]
 
+    blind_tree = [False]   # every second tree is explored without asking the reader for `remaining` between the operations
     cur_root = [b""]   # the data of the reader the current history started from (replays need it, not the slice's data)
 
     def explore(real, doc, rid, data, hist, dleft):
@@ -199,7 +201,7 @@ def run(ctx: Ctx):
             expect.append(None)
             meta.append(None)
             ctx.sig(sig_of(op, doc, "x y"))
-            a = rwlib.rop_run(r2, op)
+            a = rwlib.rop_run(r2, op, observe=not blind_tree[0])
             b = doc_run(d2, op, dn, ds)
             steps += 1
             why = judge(ctx, a, b, data, hist + [op])
@@ -228,6 +230,17 @@ def run(ctx: Ctx):
             cur_root[0] = data
             if not explore(R.EoReader(data), Doc(data), rid, data, [], depth):
                 break
+            # the same tree again, blind (the observer does not touch the reader's `remaining` bookkeeping)
+            blind_tree[0] = True
+            rid = next_id[0]
+            next_id[0] += 1
+            lines.append(f"r new {rid} {tohex(data)}")
+            expect.append("ok")
+            meta.append((data, []))
+            okb = explore(R.EoReader(data), Doc(data), rid, data, [], depth)
+            blind_tree[0] = False
+            if not okb:
+                break
             if len(lines) > 150_000:
                 if not flush():
                     return
@@ -237,7 +250,8 @@ def run(ctx: Ctx):
         if fail[0]:
             break
     if fail[0]:
-        ctx.violation("property-fails", fail[0][0], {"input": {"data": fail[0][1].hex(), "history": jsh(fail[0][2])}})
+        ctx.violation("property-fails", fail[0][0], {"input": {"data": fail[0][1].hex(), "history": jsh(fail[0][2]),
+                                                               "blind": "no `remaining` queries" in fail[0][0]}})
         return
     if not flush():
         return
@@ -259,6 +273,8 @@ def run(ctx: Ctx):
         meta.append((data, []))
         pool = [Side(R.EoReader(data), Doc(data), 0)]
         hist = []
+        blind = rng.random() < 0.35
+        ctx.count("observation." + ("blind" if blind else "full"))
         for _ in range(rng.randrange(1, 61)):
             s = rng.choice(pool)
             k = rng.randrange(20)
@@ -297,14 +313,14 @@ def run(ctx: Ctx):
             hist.append((s.rid, op))
             ctx.sig(sig_of(op, s.doc, "x y") + (s.depth > 0,))
             ctx.count("op." + op[0])
-            a = rwlib.rop_run(s.real, op)
+            a = rwlib.rop_run(s.real, op, observe=not blind)
             b = doc_run(s.doc, op, dn, ds)
             steps += 1
             why = judge(ctx, a, b, data, hist)
             if why is None and not 0 <= s.real.position <= len(s.doc.data):
                 why = f"position {s.real.position} outside the data"
             if why:
-                ctx.violation("property-fails", why, {"input": {"data": data.hex(), "pool_history": jsh(hist)}})
+                ctx.violation("property-fails", why, {"input": {"data": data.hex(), "pool_history": jsh(hist), "blind": blind}})
                 return
             lines.append(rwlib.rop_line(s.rid, op))
             expect.append(a)
@@ -359,8 +375,8 @@ def replay(ctx: Ctx, doc: dict) -> int:
             print(f"{rid} {op}: impl={a} model={m}")
             bad |= a != m
             continue
-        a, b = rwlib.rop_run(s.real, op), doc_run(s.doc, op, dn, ds)
+        a, b = rwlib.rop_run(s.real, op, observe=not doc["input"].get("blind", False)), doc_run(s.doc, op, dn, ds)
         m = ctx.driver.ask1(rwlib.rop_line(rid, op))
         print(f"{rid} {op}: impl={a} documented={b} model={m}")
-        bad |= (a != b) or (a != m)
+        bad |= (not rwlib.same(a, b)) or (not rwlib.same(a, m))
     return 1 if bad else 0
